@@ -31,6 +31,10 @@ func (srv *Srv) version(req *SrvReq) {
 		}
 
 		for rr := r; rr != nil; rr = rr.next {
+			if rr == req {
+				// the Tversion itself (it need not carry NOTAG) is answered
+				continue
+			}
 			rr.Lock()
 			rr.status |= reqFlush
 			rr.Unlock()
